@@ -8,7 +8,7 @@
 From DV Require Import Model.Base Model.NameCheck Model.Parser Model.Header Model.Readers Model.Uncompress Model.Mutate
   Spec.NameSpec Spec.PacketSpec Spec.RecordSpec Spec.PlainSpec Proofs.ListLemmas Proofs.Hoare Proofs.ParserInv Proofs.ParseSound
   Proofs.NameIff Proofs.ReadersAgree Proofs.QuestionSpec Proofs.HeaderBits Proofs.WalkValues Proofs.WalkSkip Proofs.PlainWf Proofs.EdnsPlain
-  Proofs.InsertSpec Proofs.HeaderInv Proofs.Chain Proofs.SetTtlInv Proofs.DeleteInv.
+  Proofs.InsertSpec Proofs.HeaderInv Proofs.Chain Proofs.SetTtlInv Proofs.DeleteInv Proofs.SetNameInv.
 From Coq Require Import ZifyBool ZifyNat ZifyN.
 
 Definition with_cursor (off : nat) (m : cm unit) : cm unit :=
@@ -17,13 +17,15 @@ Definition with_cursor (off : nat) (m : cm unit) : cm unit :=
 Inductive hop3 : Type :=
 | H3Base (o : hop2)
 | H3Delete (off : nat)
-| H3SetTtl (off : nat) (t : N).
+| H3SetTtl (off : nat) (t : N)
+| H3SetName (off : nat) (nm : bytes).
 
 Definition run_hop3 (o : hop3) : cm unit :=
   match o with
   | H3Base o => run_hop2 o
   | H3Delete off => with_cursor off m_delete
   | H3SetTtl off t => with_cursor off (m_set_ttl t)
+  | H3SetName off nm => with_cursor off (m_set_raw_name nm)
   end.
 
 (** [off] is where a non-OPT record of a record section starts *)
@@ -35,6 +37,7 @@ Definition hop3_ok_at (v : ppacket) (o : hop3) : Prop :=
   | H3Base o => hop2_ok o
   | H3Delete off => record_starts v off
   | H3SetTtl off t => record_starts v off /\ (t < 4294967296)%N
+  | H3SetName off nm => record_starts v off /\ bytes_ok nm
   end.
 
 Fixpoint run_hops3 (ops : list hop3) (s : st) : st * res unit :=
@@ -78,7 +81,7 @@ Qed.
 Theorem hop3_keeps_dinv : forall o v it s1, dinv v -> is_response (pp_packet v) -> it_section it <> SQuestion -> hop3_ok_at v o ->
   run_hop3 o (v, it) = (s1, Ok tt) -> dinv (fst s1) /\ snd s1 = it /\ is_response (pp_packet (fst s1)).
 Proof.
-  intros o v it s1 Hd Hr Hsec Ho E. destruct o as [o|off|off t]; cbn [run_hop3 hop3_ok_at] in E, Ho.
+  intros o v it s1 Hd Hr Hsec Ho E. destruct o as [o|off|off t|off nm]; cbn [run_hop3 hop3_ok_at] in E, Ho.
   - exact (hop2_keeps_dinv o v it s1 Hd Hr Ho E).
   - destruct Ho as (qls & qt & lA & lN & lR & r & x & Rd & Hin & Hno & <-).
     destruct (reading_record_in _ _ _ _ _ _ Rd r x Hin) as (_ & e & Hrec).
@@ -96,6 +99,15 @@ Proof.
     destruct (m_set_ttl t (v, cur)) as [s2 [u| |]] eqn:Eset; inversion E; subst s1. destruct u. cbn [fst snd].
     destruct (set_ttl_keeps_dinv v cur t s2 qls qt lA lN lR r x Hd Ht Rd Hin Hno ltac:(discriminate) eq_refl Eset) as (Hd' & _).
     split; [exact Hd'|]. split; [reflexivity|]. destruct Hr as (w & Hw & Hq). exists w. split; [exact (set_ttl_flags _ _ _ _ Eset w Hw)|exact Hq].
+  - destruct Ho as ((qls & qt & lA & lN & lR & r & x & Rd & Hin & Hno & <-) & Hbn).
+    destruct (reading_record_in _ _ _ _ _ _ Rd r x Hin) as (_ & e & Hrec).
+    unfold with_cursor in E. unfold cbind at 1 in E. rewrite (cursor_on v it r e (di_bytes _ Hd) Hrec Hsec) in E.
+    match type of E with context [m_set_raw_name nm (v, ?c)] => set (cur := c) in * end.
+    destruct (m_set_raw_name nm (v, cur)) as [s2 [u| |]] eqn:Eset; inversion E; subst s1. destruct u. cbn [fst snd].
+    destruct (set_raw_name_keeps_dinv nm v cur s2 qls qt lA lN lR r x Hd Hbn Rd Hin Hno eq_refl eq_refl Eset)
+      as (Hd' & (n & ls & A & Nn & R & A' & Nn' & R' & X1 & r0 & X2 & Hrest)).
+    cbv zeta in Hrest. destruct Hrest as (_ & _ & _ & _ & _ & _ & _ & _ & _ & _ & _ & _ & _ & Hfl).
+    split; [exact Hd'|]. split; [reflexivity|]. destruct Hr as (w & Hw & Hq). exists w. split; [exact (Hfl w Hw)|exact Hq].
 Qed.
 
 Theorem hops3_keep_dinv : forall ops v it s', dinv v -> is_response (pp_packet v) -> it_section it <> SQuestion -> ok_along ops (v, it) ->
